@@ -123,6 +123,30 @@ def build() -> Check:
                "the backend completed the wait, and the invocation answers PENDING with nothing left registered | " + "; ".join(f"{k}->{v}" for k, v in badw[0][1].pc)[:300]) if badw else "", cell=st)
     ck.floor("replayed_wait_suspensions", n_wait, 1)
 
+    # R1 an operation that waits for ITS OWN timer (a step or wait-for-condition found PENDING, a wait found STARTED) and whose record says when that timer
+    # fires never parks without a time: inside a map/parallel an untimed branch is never looked at again in this invocation; when the overdue timer fires
+    # while a sibling is still running, the READY record arrives with the sibling's checkpoint, the sibling finishes, the verdict says "all parked" and the
+    # invocation answers PENDING with no timer left to wake it (r7_C07: "a timestamp in the past cannot be honoured -> suspend without a time")
+    n_own = 0
+    for name, ci, ot, st in applicable_cells(pm):
+        if (ot, st) not in (("STEP", "PENDING"), ("WAIT", "STARTED")):
+            continue
+        bado = []
+        for t in pm.run_cell(ci, st, faults=False):
+            if t.outcome != "raise" or not (t.exc_class() or "").endswith(".SuspendExecution"):
+                continue
+            # `(a + b) is None` cannot hold: the interpreter explores it, the path is infeasible
+            if any(str(k).startswith("(") and " + " in str(k) and str(k).endswith(") is None") and v is True for k, v in t.pc):
+                continue
+            n_own += 1
+            no_time = any(v is True and str(k).endswith(" is None") and ("timestamp" in str(k) or str(k).endswith("_details is None")) for k, v in t.pc)
+            if not no_time:
+                bado.append((f"{ot.lower()} found {st} with a recorded timer parks WITHOUT a time", t))
+        ck.ob("R1.own-timer-never-parks-without-a-time", f"{ci.module.relpath.split('aws_durable_execution_sdk_python/')[-1]}:{ci.name}", not bado,
+              (bado[0][0] + ": in a map/parallel nobody looks at the branch again in this invocation; once the overdue timer has fired the invocation can answer PENDING "
+               "with nothing left to wake the execution | " + "; ".join(f"{k}->{v}" for k, v in bado[0][1].pc)[:300]) if bado else "", cell=st)
+    ck.floor("own_timer_untimed_paths", n_own, 4)
+
     # R2 suspend decision --------------------------------------------------------------------------
     cex = prog.cls("concurrency.executor", "ConcurrentExecutor")
     models = prog.module("concurrency.models")
